@@ -82,6 +82,16 @@ FIXED = [
     ('C18', '9115501', 'Predicates: P=[(0,0,2),(1,0,1)]; P[0:2]=[(0,0,1),(0,0,2)] left two arities of one symbol'),
 ]
 # genuine defects kept as findings (no small safe repair)
+# (n) K3WQ declares extension_of K3W, but its quantifiers are the generalised WEAK disjunction / conjunction
+for row in ('Existential:NT', 'Existential:FNT', 'Universal:FN', 'Universal:FNT'):
+    F.append(dict(property='C11', key=f'C11:embeds:K3W->K3WQ:{row}', status='known',
+        what='K3WQ.Meta.extension_of = K3W, but K3WQ evaluates quantifiers by generalised weak-Kleene disjunction/conjunction '
+             f'(row {row}: K3W gives the min/max value, K3WQ gives N), so a K3WQ interpretation is not a K3W interpretation. '
+             'The declaration is only true of the propositional fragment; it is metadata used by the documentation and by tests '
+             '(test/logics derive expectations through the extension table), not repaired.'))
+F.append(dict(property='C11', key='C11:extension:K3W->K3WQ:fold:*', status='known',
+    what='consequence of the K3W->K3WQ quantifier rows: e.g. Fa |- ExFx is valid in K3W and refuted in K3WQ by the genuine '
+         'countermodel Fa=T, Fb=N'))
 F.append(dict(property='C14', key='C14:immutable:lazy-slot-settable:*', status='known',
     what='constructed items accept setattr on still-empty lazily filled private slots (_hash, _ident, _constants, ...), after which '
          'hash(x) / x.constants return the planted value; the slots are filled through the same __setattr__ path, so there is no small repair'))
